@@ -1,7 +1,8 @@
 (* C16 - the argument checks of the template classes vs. the well-formedness premise `wf` / `ref_ok` of the
-   theorems: what the constructors accept is what ref_ok describes, EXCEPT that ReferencedSegment / VolumeSurface
-   accept an empty source image list and VolumeSurface (POINT / ELLIPSOID) an empty graphic data list - and a group
-   built from such an object cannot report the reference it was constructed with (refuted clause, real defect). *)
+   theorems: what the constructors accept is exactly what ref_ok describes (a region in space apart), so every group
+   the template classes build is a record the theorems speak about and reports the reference it was constructed
+   with.  (Before fix D107 ReferencedSegment / VolumeSurface accepted an empty source image list and an empty
+   graphic data list; the three former counterexamples are kept as refusal examples.) *)
 From Coq Require Import String ZArith List Bool Lia.
 From HD Require Import Base.Val C16_Model C16_Proofs C16_Proofs_Acc C16_Proofs_Tree C16_Proofs_E2E.
 Import ListNotations.
@@ -20,13 +21,39 @@ Lemma run_construct_volumetric_eq regions surface segment :
   run_construct_volumetric regions surface segment = construct_val Volumetric (cv_spec regions surface segment).
 Proof. reflexivity. Qed.
 
-(* what the documentation of ReferencedSegment / VolumeSurface does not allow but the constructors accept *)
-Definition undocumented (r : gref) : bool :=
-  match r with
-  | Segment _ _ (SrcImages []) => true
-  | Surface _ n so => Nat.eqb n 0 || match so with SrcImages [] => true | _ => false end
-  | _ => false
+(* the objects make_obj yields: a segment / surface carries a source, a surface at least one item *)
+Definition obj_ok (o : obj) : bool :=
+  match o with
+  | OSegment _ _ so => sources_ok so
+  | OSurface _ n so => negb (Nat.eqb n 0) && sources_ok so
+  | _ => true
   end.
+Definition oobj_ok (o : option obj) : bool := match o with Some x => obj_ok x | None => true end.
+
+Lemma construct_sources_ok a so : construct_sources a = Ok so -> sources_ok so = true.
+Proof.
+  destruct a as [[[|x l]|] [u|]]; cbn; intros H; inversion H; reflexivity.
+Qed.
+Lemma surface_count_pos gt n : surface_count_check gt n = Ok tt -> negb (Nat.eqb n 0) = true.
+Proof.
+  unfold surface_count_check. destruct n as [|n]; [|reflexivity].
+  destruct ((gt =? 6) || (gt =? 1)); [cbn; discriminate|].
+  destruct ((gt =? 5) || (gt =? 4)); cbn; discriminate.
+Qed.
+Lemma make_obj_ok s o : make_obj s = Ok o -> obj_ok o = true.
+Proof.
+  destruct s as [gt c i|gt|c i sc si|c i a|gt n a|]; cbn [make_obj]; try (intros H; inversion H; reflexivity).
+  - destruct (construct_sources a) as [so|e] eqn:E; cbn [bind]; intros H; inversion H.
+    cbn [obj_ok]. now apply construct_sources_ok in E.
+  - destruct (surface_count_check gt n) as [[]|e] eqn:E1; cbn [bind]; [|discriminate].
+    destruct (construct_sources a) as [so|e] eqn:E2; cbn [bind]; intros H; inversion H.
+    cbn [obj_ok]. rewrite (surface_count_pos gt n E1). now apply construct_sources_ok in E2.
+Qed.
+Lemma opt_obj_ok s o : opt_obj s = Ok o -> oobj_ok o = true.
+Proof.
+  destruct s as [s|]; cbn [opt_obj]; [|intros H; inversion H; reflexivity].
+  destruct (make_obj s) as [x|e] eqn:E; cbn [bind]; intros H; inversion H. cbn [oobj_ok]. now apply make_obj_ok in E.
+Qed.
 
 Lemma regions_of_nonempty l r : regions_of l = Ok r -> l <> [] -> r <> [].
 Proof.
@@ -40,10 +67,11 @@ Proof.
   destruct region as [[]|], segment as [[]|]; cbn; intros H; inversion H; reflexivity.
 Qed.
 
-Theorem construct_volumetric_sound_partial regions surface segment r :
-  construct_volumetric regions surface segment = Ok r -> ref_ok Volumetric r = true \/ undocumented r = true.
+(* on objects the object constructors yield *)
+Theorem construct_volumetric_sound_obj regions surface segment r : oobj_ok surface = true -> oobj_ok segment = true ->
+  construct_volumetric regions surface segment = Ok r -> ref_ok Volumetric r = true.
 Proof.
-  unfold construct_volumetric.
+  intros Hsu Hse. unfold construct_volumetric.
   destruct (match regions with Some l => existsb is_r3 l | None => false end); [discriminate|].
   destruct (match segment with Some (OSegment _ _ _) | None => false | Some _ => true end); [discriminate|].
   destruct (nsome regions + nsome surface + nsome segment =? 0); [discriminate|].
@@ -51,13 +79,28 @@ Proof.
   destruct regions as [[|o t]|].
   - discriminate.
   - destruct (regions_of (o :: t)) as [rs|e] eqn:E; cbn [bind]; [|discriminate].
-    intros H. inversion H. left. cbn [ref_ok]. apply regions_of_nonempty in E; [|discriminate].
+    intros H. inversion H. cbn [ref_ok]. apply regions_of_nonempty in E; [|discriminate].
     destruct rs; [congruence|reflexivity].
   - destruct surface as [[]|]; try discriminate.
-    + intros H. inversion H. cbn [ref_ok undocumented sources_ok].
-      destruct n as [|n]; [right; reflexivity|]. destruct so as [[|x l]|u]; cbn; auto.
-    + destruct segment as [[]|]; try discriminate. intros H. inversion H. cbn [ref_ok undocumented sources_ok].
-      destruct so as [[|x l]|u]; cbn; auto.
+    + intros H. inversion H; subst. exact Hsu.
+    + destruct segment as [[]|]; try discriminate. intros H. inversion H; subst. exact Hse.
+Qed.
+
+(* the full statements, on what the harness observes: objects first, then the group *)
+Theorem construct_planar_spec_sound region segment r : cp_spec region segment = Ok (Ok r) -> ref_ok Planar r = true.
+Proof.
+  unfold cp_spec. destruct (opt_obj region) as [a|e]; cbn [bind]; [|discriminate].
+  destruct (opt_obj segment) as [b|e]; cbn [bind]; [|discriminate].
+  intros H. inversion H as [H1]. now apply construct_planar_sound in H1.
+Qed.
+Theorem construct_volumetric_sound regions surface segment r :
+  cv_spec regions surface segment = Ok (Ok r) -> ref_ok Volumetric r = true.
+Proof.
+  unfold cv_spec. destruct (opt_objs regions) as [a|e]; cbn [bind]; [|discriminate].
+  destruct (opt_obj surface) as [b|e] eqn:Eb; cbn [bind]; [|discriminate].
+  destruct (opt_obj segment) as [c|e] eqn:Ec; cbn [bind]; [|discriminate].
+  intros H. inversion H as [H1]. apply opt_obj_ok in Eb, Ec.
+  now apply (construct_volumetric_sound_obj a b c r Eb Ec).
 Qed.
 
 (* every reference ref_ok describes (region in space apart: no constructor takes one) is constructible *)
@@ -69,8 +112,8 @@ Definition constructible (r : gref) : Prop :=
   end.
 Definition src_arg_of (so : sources) : src_arg :=
   match so with SrcImages l => SrcArg (Some l) None | SrcSeries u => SrcArg None (Some u) end.
-Lemma construct_sources_of so : construct_sources (src_arg_of so) = Ok so.
-Proof. now destruct so. Qed.
+Lemma construct_sources_of so : sources_ok so = true -> construct_sources (src_arg_of so) = Ok so.
+Proof. destruct so as [[|x l]|u]; cbn; [discriminate| |]; reflexivity. Qed.
 
 Lemma objs_regions rs : objs (map (fun x => SpRegion2D (fst x) (fst (snd x)) (snd (snd x))) rs)
   = Ok (map (fun x => ORegion2D (fst x) (fst (snd x)) (snd (snd x))) rs).
@@ -94,7 +137,8 @@ Proof.
     + exists (Some (SpRegion2D gt c i)), None. reflexivity.
     + exists (Some (SpRegion3D gt)), None. reflexivity.
     + exists None, (Some (SpSegFrame c i sc si)). reflexivity.
-  - destruct r as [gt c i|gt|c i sc si|rs|c i so|gt n so|c i|l]; cbn in Hr, Hc; try discriminate; try contradiction.
+  - destruct r as [gt c i|gt|c i sc si|rs|c i so|gt n so|c i|l]; cbn [ref_ok constructible] in Hr, Hc;
+      try discriminate; try contradiction.
     + exists (Some (map (fun x => SpRegion2D (fst x) (fst (snd x)) (snd (snd x))) rs)), None, None.
       unfold cv_spec. cbn [opt_objs]. rewrite objs_regions. cbn [bind opt_obj]. unfold construct_volumetric.
       rewrite no_r3_regions. cbn [nsome]. cbn. destruct rs as [|x t]; [discriminate|].
@@ -102,41 +146,57 @@ Proof.
         with (map (fun x0 => ORegion2D (fst x0) (fst (snd x0)) (snd (snd x0))) (x :: t)).
       rewrite regions_of_regions. reflexivity.
     + exists None, None, (Some (SpSegment c i (src_arg_of so))).
-      unfold cv_spec. cbn [opt_objs opt_obj make_obj bind]. rewrite construct_sources_of. reflexivity.
-    + exists None, (Some (SpSurface gt n (src_arg_of so))), None.
-      unfold cv_spec. cbn [opt_objs opt_obj make_obj bind]. rewrite Hc, construct_sources_of. reflexivity.
+      unfold cv_spec. cbn [opt_objs opt_obj make_obj bind]. rewrite construct_sources_of by assumption. reflexivity.
+    + apply andb_true_iff in Hr as [_ Hs].
+      exists None, (Some (SpSurface gt n (src_arg_of so))), None.
+      unfold cv_spec. cbn [opt_objs opt_obj make_obj bind]. rewrite Hc. cbn [bind].
+      rewrite construct_sources_of by assumption. reflexivity.
 Qed.
 
-(* a DOCUMENTED construction yields a record the theorems speak about (good), so by C16_end_to_end the group is
+(* EVERY accepted construction yields a record the theorems speak about (good), so by C16_end_to_end the group is
    returned by exactly its query and every accessor reports what it was constructed with *)
-Theorem constructed_group_good_partial k r :
+Theorem constructed_group_good k r :
   match k with
-  | Planar => exists region segment, construct_planar region segment = Ok r
-  | Volumetric => exists regions surface segment, construct_volumetric regions surface segment = Ok r
+  | Planar => exists region segment, cp_spec region segment = Ok (Ok r)
+  | Volumetric => exists regions surface segment, cv_spec regions surface segment = Ok (Ok r)
   | ImageK => False
-  end ->
-  undocumented r = false -> good (bare_group k r).
+  end -> good (bare_group k r).
 Proof.
-  intros H Hu. assert (Hr : ref_ok k r = true).
+  intros H. assert (Hr : ref_ok k r = true).
   { destruct k; [| |contradiction].
-    - destruct H as (a & b & H). now apply construct_planar_sound in H.
-    - destruct H as (a & b & c & H). apply construct_volumetric_sound_partial in H as [H|H]; [assumption|congruence]. }
+    - destruct H as (a & b & H). now apply construct_planar_spec_sound in H.
+    - destruct H as (a & b & c & H). now apply construct_volumetric_sound in H. }
   split.
   - unfold wf, bare_group. cbn [g_kind g_ref g_evals g_meas forallb]. rewrite Hr. destruct k; reflexivity.
   - reflexivity.
 Qed.
 
-(* FULL statement (false of the code as it is):
-     forall specs r, cv_spec regions surface segment = Ok (Ok r) ->
-       acc_segment (build (bare_group Volumetric r)) = Ok (segment_of r) /\ acc_vol_roi (build ...) = Ok (vol_roi_of r)
-                       /\ acc_reference_type allowed_volumetric (build ...) = Ok (ref_code r).
-   Refuted: the constructors accept an empty source image list / an empty graphic data list, and the group then
-   raises RuntimeError where it should report its reference. *)
-Theorem constructed_reference_reported_refuted :
-  (exists r, cv_spec None None (Some (SpSegment 3 11 (SrcArg (Some []) None))) = Ok (Ok r) /\
-             acc_segment (build (bare_group Volumetric r)) = Err "RuntimeError"%string) /\
-  (exists r, cv_spec None (Some (SpSurface 6 1 (SrcArg (Some []) None))) None = Ok (Ok r) /\
-             acc_vol_roi (build (bare_group Volumetric r)) = Err "RuntimeError"%string) /\
-  (exists r, cv_spec None (Some (SpSurface 1 0 (SrcArg None (Some 2)))) None = Ok (Ok r) /\
-             acc_reference_type allowed_volumetric (build (bare_group Volumetric r)) = Err "RuntimeError"%string).
-Proof. repeat split; eexists; split; vm_compute; reflexivity. Qed.
+(* the clause that was false before fix D107: a volumetric group the constructors accept reports the reference it
+   was constructed with *)
+Theorem constructed_reference_reported regions surface segment r :
+  cv_spec regions surface segment = Ok (Ok r) ->
+  acc_reference_type allowed_volumetric (build (bare_group Volumetric r)) = Ok (ref_code r) /\
+  acc_vol_roi (build (bare_group Volumetric r)) = Ok (vol_roi_of r) /\
+  acc_segment (build (bare_group Volumetric r)) = Ok (segment_of r).
+Proof.
+  intros H. destruct (constructed_group_good Volumetric r) as [Hw _]; [eauto|].
+  exact (accessors_identity_volumetric (bare_group Volumetric r) Hw eq_refl).
+Qed.
+Theorem constructed_reference_reported_planar region segment r :
+  cp_spec region segment = Ok (Ok r) ->
+  acc_reference_type allowed_planar (build (bare_group Planar r)) = Ok (ref_code r) /\
+  acc_planar_roi (build (bare_group Planar r)) = planar_roi_of r /\
+  acc_segframe (build (bare_group Planar r)) = Ok (segframe_of r).
+Proof.
+  intros H. destruct (constructed_group_good Planar r) as [Hw _]; [eauto|].
+  exact (accessors_identity_planar (bare_group Planar r) Hw eq_refl).
+Qed.
+
+(* the three former counterexamples (empty source image list, empty volume surface) are refused at the object stage *)
+Lemma former_counterexamples_refused :
+  cv_spec None None (Some (SpSegment 3 11 (SrcArg (Some []) None))) = Err "ValueError"%string /\
+  cv_spec None (Some (SpSurface 6 1 (SrcArg (Some []) None))) None = Err "ValueError"%string /\
+  cv_spec None (Some (SpSurface 1 0 (SrcArg None (Some 2)))) None = Err "ValueError"%string /\
+  cv_spec None None (Some (SpSegment 3 11 (SrcArg (Some []) (Some 2)))) = Err "ValueError"%string /\
+  (exists r, cv_spec None None (Some (SpSegment 3 11 (SrcArg (Some [(0, 3)]) None))) = Ok (Ok r)).
+Proof. repeat split; try (eexists; vm_compute; reflexivity); vm_compute; reflexivity. Qed.
